@@ -223,7 +223,7 @@ fn one_arm64(acc: &mut Acc, a: u64, tramp: Option<u64>, fake: u64, boolv: Option
             }
             if unsafe { arena::read(a - 16, 48) } != pre {
                 acc.viol("C02", "aarch64:not-restored", format!("bytes around entry {a:#x} differ from the pre-image after the guard was dropped"));
-                unsafe { arena::write(a - 16, &pre) };
+                unsafe { arena::write_force(a - 16, &pre) };
             }
             let left = venv::with(|e| e.owned.len());
             if left != 0 {
@@ -248,7 +248,7 @@ fn prep_target64(a: u64) {
     for w in words {
         b.extend_from_slice(&w.to_le_bytes());
     }
-    unsafe { arena::write(a - 16, &b) };
+    unsafe { arena::write_force(a - 16, &b) };
 }
 
 const BG: [u64; 4] = [0x0000, 0xFFFF, 0xAAAA, 0x5555];
@@ -577,7 +577,7 @@ fn far_entry(acc: &mut Acc, a: u64, d: i64) {
             acc.tag("far:refused");
             if unsafe { arena::read(a - 16, 48) } != pre {
                 acc.viol("C15", "aarch64:refused-but-modified", format!("displacement {d:#x}: refused but entry bytes changed"));
-                unsafe { arena::write(a - 16, &pre) };
+                unsafe { arena::write_force(a - 16, &pre) };
             }
         }
         Ok(g) => {
@@ -591,7 +591,7 @@ fn far_entry(acc: &mut Acc, a: u64, d: i64) {
             }
             // do not run the guard's drop: it would munmap an address the allocator never returned
             std::mem::forget(g);
-            unsafe { arena::write(a - 16, &pre) };
+            unsafe { arena::write_force(a - 16, &pre) };
         }
     }
     venv::with(|e| e.errors.clear());
@@ -617,7 +617,7 @@ fn far_entry_mac(acc: &mut Acc, a: u64, d: i64) {
             other => acc.viol("C15", "aarch64-macos:patch-wrong-destination", format!("macOS entry patch for displacement {d:#x}: {other:?} after [{}]", run.trace.join("; "))),
         }
         std::mem::forget(g);
-        unsafe { arena::write(a - 16, &pre) };
+        unsafe { arena::write_force(a - 16, &pre) };
     } else {
         acc.tag("mac-patch:refused");
     }
